@@ -105,8 +105,14 @@ const INTERESTING_I64: [i64; 22] = [
 ];
 
 fn gen_i64(rng: &mut Rng) -> i64 {
-	match rng.below(4) {
+	match rng.below(5) {
 		0 => *rng.pick(&INTERESTING_I64),
+		// where the zig-zag varint grows by a byte: +-2^(7k-1) and their neighbours, k = 1..9
+		4 => {
+			let k = 1 + rng.below(9) as u32;
+			let b = 1i64 << (7 * k - 1);
+			*rng.pick(&[b - 1, b, -b, -b - 1, b + 1, -b + 1])
+		}
 		1 => rng.range(-200, 200),
 		2 => {
 			let bits = rng.below(63) + 1;
@@ -121,7 +127,12 @@ fn gen_i64(rng: &mut Rng) -> i64 {
 	}
 }
 fn gen_i32(rng: &mut Rng) -> i32 {
-	match rng.below(3) {
+	match rng.below(4) {
+		3 => {
+			let k = 1 + rng.below(4) as u32;
+			let b = 1i32 << (7 * k - 1);
+			*rng.pick(&[b - 1, b, -b, -b - 1, i32::MAX, i32::MIN, i32::MAX - 1, i32::MIN + 1])
+		}
 		0 => {
 			let v = *rng.pick(&INTERESTING_I64);
 			v.clamp(i32::MIN as i64, i32::MAX as i64) as i32
@@ -150,7 +161,15 @@ pub fn pow10(n: u32) -> i128 {
 }
 
 fn gen_unscaled(rng: &mut Rng, max_abs: i128) -> i128 {
-	let v: i128 = match rng.below(5) {
+	let v: i128 = match rng.below(7) {
+		// where the two's complement representation grows by a byte (a sign byte is needed or not): +-2^(8k-1), +-256^k
+		// and their neighbours; the extremes of the range
+		5 => {
+			let k = 1 + rng.below(11) as u32;
+			let b = 1i128 << (8 * k - 1);
+			*rng.pick(&[b - 1, b, -b, -b - 1, 2 * b - 1, 2 * b, -2 * b, -2 * b + 1])
+		}
+		6 => *rng.pick(&[max_abs, -max_abs, max_abs - 1, 1 - max_abs, 0, -1]),
 		0 => *rng.pick(&[0i128, 1, -1, 127, 128, -128, -129, 255, 256, 32767, 32768, -32768, -32769]),
 		1 => rng.range(-1000, 1000) as i128,
 		2 => gen_i64(rng) as i128,
@@ -278,10 +297,12 @@ fn gen_val_inner(rng: &mut Rng, env: &Env, ty: &Ty, cfg: &ValCfg, budget: &mut i
 		},
 		Ty::DecimalFixed { size, scale, .. } => {
 			let max_abs = if *size >= 12 { pow10(26) } else { (1i128 << (8 * size - 1)) - 1 };
-			Val::Decimal {
-				unscaled: gen_unscaled(rng, max_abs.min(pow10(26))),
-				scale: *scale,
+			let mut unscaled = gen_unscaled(rng, max_abs.min(pow10(26)));
+			if *size < 12 && rng.chance(1, 12) {
+				// the most negative value the fixed can hold
+				unscaled = -max_abs - 1;
 			}
+			Val::Decimal { unscaled, scale: *scale }
 		}
 		Ty::BigDecimal => Val::Decimal {
 			unscaled: gen_unscaled(rng, pow10(18)),
@@ -720,6 +741,16 @@ impl<'a> serde::Serialize for Presented<'a> {
 				};
 				ctx.depth.set(ctx.depth.get() - 1);
 				res
+			}
+			// a whole number may be given to a decimal as an integer (it is multiplied by 10^scale)
+			(Ty::DecimalBytes { .. } | Ty::DecimalFixed { .. }, Val::Decimal { unscaled, scale }) if (1..=4).contains(&alt) && *scale <= 20 && *unscaled % pow10(*scale) == 0 => {
+				let whole = *unscaled / pow10(*scale);
+				match alt {
+					1 if i64::try_from(whole).is_ok() => s.serialize_i64(whole as i64),
+					2 if u64::try_from(whole).is_ok() => s.serialize_u64(whole as u64),
+					3 if i32::try_from(whole).is_ok() => s.serialize_i32(whole as i32),
+					_ => s.serialize_i128(whole),
+				}
 			}
 			(Ty::DecimalBytes { .. } | Ty::DecimalFixed { .. } | Ty::BigDecimal, Val::Decimal { unscaled, scale }) => {
 				s.serialize_str(&decimal_to_string(*unscaled, *scale))
